@@ -951,13 +951,29 @@ func (w *World) produce(parent *blockRec, slot uint64) (*blockRec, error) {
 				}
 			}
 			which := 0
+			// a double vote (same target epoch), or a surround vote: the first vote (source e-3, target e)
+			// surrounds the second (source e-2, target e-1); each is signed under the domain of its own target epoch
+			surround := w.rng.Bool() && epoch >= w.cfg.StartEpoch+3
+			if surround {
+				w.res.Stat("attester_slashings_by_surround_vote", 1)
+			}
 			mk := func(tag uint64) phase0.IndexedAttestation {
 				idx := append(append([]int(nil), idx...), extras[which]...)
+				second := which == 1
 				which++
 				sort.Ints(idx)
 				src, _ := st.CurrentJustifiedCheckpoint()
-				d := phase0.AttestationData{Slot: common.Slot(slot), Index: 0, BeaconBlockRoot: fnvRoot("as", tag), Source: src, Target: common.Checkpoint{Epoch: common.Epoch(epoch), Root: fnvRoot("as-t", tag)}}
-				dom := domainFor(fork, w.gvr, common.DOMAIN_BEACON_ATTESTER, common.Epoch(epoch))
+				tgtEpoch, aslot := epoch, slot
+				if surround {
+					src = common.Checkpoint{Epoch: common.Epoch(epoch - 3), Root: fnvRoot("as-s", tag)}
+					if second {
+						src.Epoch = common.Epoch(epoch - 2)
+						tgtEpoch = epoch - 1
+						aslot = tgtEpoch * w.cfg.SPE
+					}
+				}
+				d := phase0.AttestationData{Slot: common.Slot(aslot), Index: 0, BeaconBlockRoot: fnvRoot("as", tag), Source: src, Target: common.Checkpoint{Epoch: common.Epoch(tgtEpoch), Root: fnvRoot("as-t", tag)}}
+				dom := domainFor(fork, w.gvr, common.DOMAIN_BEACON_ATTESTER, common.Epoch(tgtEpoch))
 				ci := make(common.CommitteeIndices, len(idx))
 				for i, v := range idx {
 					ci[i] = common.ValidatorIndex(v)
